@@ -161,7 +161,7 @@ def gen_shell(rng, n_ops=None):
             ops.append(dict(op=kind, cmd=cmd, decode=rng.random() < 0.6))
     sim = dict(maxdata=rng.choice([4096, 65536, 1 << 20]), shell=shell, burst=rng.random() < 0.4, remote_ids=rand_remote_ids(rng),
                stray=stray_packets(rng))
-    scn = dict(envs=[base_env(rng, sim)], ops=ops)
+    scn = dict(envs=[base_env(rng, sim)], ops=ops, healthy=True)
     if rng.random() < 0.3:
         scn["preset"] = dict(lid=rng.choice([0, 1, 2 ** 32 - 3, 2 ** 32 - 2, 2 ** 32 - 1, rng.randrange(2 ** 32)]))
     return scn
@@ -213,6 +213,8 @@ def gen_sync_read(rng):
                 chunks = []
                 i2 = 0
                 while i2 < len(content):
+                    if rng.random() < 0.1:
+                        chunks.append(b"")      # a zero-length DATA record is legal
                     n = rng.choice([1, 2, 100, 4096, 65536, rng.randrange(1, 70000)]) if len(chunks) < 40 else 65536
                     chunks.append(content[i2:i2 + n])
                     i2 += n
@@ -238,7 +240,7 @@ def gen_sync_read(rng):
                 if k in stat:
                     stat[k] = (33188, len(whole), 5)
     sim = dict(maxdata=rng.choice([4096, 8192, 65536, 262144, 1 << 20]), fs=fs, stat=stat, burst=rng.random() < 0.4,
-               wrte_split=split, data_chunk=data_chunk, remote_ids=rand_remote_ids(rng), stray=stray_packets(rng))
+               okay_after_reply=rng.random() < 0.35, wrte_split=split, data_chunk=data_chunk, remote_ids=rand_remote_ids(rng), stray=stray_packets(rng))
     return dict(envs=[base_env(rng, sim)], ops=ops)
 
 
@@ -275,8 +277,8 @@ def gen_push(rng, big=False):
         fid += 1
         ops.append(op)
     sim = dict(maxdata=maxdata, burst=rng.random() < 0.3, remote_ids=rand_remote_ids(rng), stray=stray_packets(rng),
-               wrte_split=rand_split(rng), default_chunks=[])
-    return dict(envs=[base_env(rng, sim)], ops=ops, files=files, dirs=dirs)
+               wrte_split=rand_split(rng), default_chunks=[], okay_after_reply=rng.random() < 0.3)
+    return dict(envs=[base_env(rng, sim)], ops=ops, files=files, dirs=dirs, healthy=True)
 
 
 def gen_reconnect_push(rng):
@@ -290,7 +292,7 @@ def gen_reconnect_push(rng):
            dict(op="push", src=(rng.choice(["bytesio", "file"]), 1), path=b"/sdcard/b", mtime=7)]
     if rng.random() < 0.5:
         ops.insert(2, dict(op="close"))
-    return dict(envs=envs, ops=ops, files=files)
+    return dict(envs=envs, ops=ops, files=files, healthy=True)
 
 
 def gen_handshake(rng):
@@ -344,8 +346,8 @@ def gen_mixed(rng, healthy=True):
     rng.shuffle(pool)
     ops += pool[:rng.randrange(2, 7)]
     sim = dict(maxdata=rng.choice([4096, 65536]), shell=shell, fs=fs, stat=stat, burst=rng.random() < 0.3, remote_ids=rand_remote_ids(rng),
-               wrte_split=rng.choice([None, [7], [1000]]), data_chunk=rng.choice([100, 4096, 65536]))
-    return dict(envs=[base_env(rng, sim)], ops=ops, files=files)
+               wrte_split=rng.choice([None, [7], [1000]]), data_chunk=rng.choice([100, 4096, 65536]), okay_after_reply=rng.random() < 0.3)
+    return dict(envs=[base_env(rng, sim)], ops=ops, files=files, healthy=healthy)
 
 
 def with_fault(rng, scn, total_in, total_out):
@@ -356,11 +358,20 @@ def with_fault(rng, scn, total_in, total_out):
     kind = rng.choice(["timeout", "reset", "eof"] if side == "in" else ["timeout", "reset"])
     s["envs"][0]["faults"] = [(side, off, kind)]
     s["envs"][0]["dt"] = max(1, s["envs"][0].get("dt", 1))
+    s["healthy"] = False
     healthy = copy.deepcopy(scn["envs"][0])
     healthy.pop("faults", None)
+    # the broken session also leaves packets behind that are addressed to stream ids the host has NOT allocated yet
+    # (they end up parked in the packet store); the new session must not see them
+    n_open = 3 * len(scn["ops"]) + 4
+    stale = []
+    for k in range(1, rng.randrange(2, 8)):
+        lid_future = rng.randrange(1, n_open)
+        stale.append((rng.randrange(1, 10), pkt(rng.choice([b"OKAY", b"WRTE", b"OKAY"]), rng.randrange(1, 50), lid_future, b"STALE" if rng.random() < 0.5 else b"")))
+    s["envs"][0]["sim"]["stray"] = list(s["envs"][0]["sim"].get("stray", [])) + stale
     s["envs"].append(healthy)
     replay_ops = [copy.deepcopy(o) for o in scn["ops"]]
-    s["ops"] = scn["ops"] + [dict(op="close")] + replay_ops
+    s["ops"] = scn["ops"] + ([dict(op="close")] if rng.random() < 0.6 else []) + replay_ops
     s["fault"] = (side, off, kind)
     s["n_before"] = len(scn["ops"])
     return s
